@@ -13,6 +13,7 @@ import (
 	"testing"
 	"testing/synctest"
 	"time"
+	"unsafe"
 )
 
 type task struct {
@@ -48,6 +49,7 @@ type Sched struct {
 	onAbort    []func()
 	pendingAdv time.Duration
 	start      time.Time
+	onces      map[*sync.Once]*onceState
 }
 
 const (
@@ -98,7 +100,7 @@ func (s *Sched) newTaskLocked(name string, class int) *task {
 // Bubble runs f inside a synctest bubble with a fresh scheduler. f spawns the
 // initial tasks with s.Go and then calls s.Loop().
 func (r *Run) Bubble(t *testing.T, maxSteps int, f func(s *Sched)) {
-	s := &Sched{r: r, byGid: map[uint64]*task{}, MaxSteps: maxSteps, changeAt: map[int]bool{}}
+	s := &Sched{r: r, byGid: map[uint64]*task{}, MaxSteps: maxSteps, changeAt: map[int]bool{}, onces: map[*sync.Once]*onceState{}}
 	s.strategy = r.T.SchedIntn(nStrat, "strategy")
 	switch s.strategy {
 	case StratStarve:
@@ -617,3 +619,73 @@ func MutexUnlocked() {
 // the scheduler picks it only when nothing else can run (cleared by any
 // MutexUnlocked/pipe progress or when it is picked).
 func Blocked() { taskBlocked() }
+
+// ---- simulated sync.Once ----
+
+// onceDoneReadable reports whether the done flag of a sync.Once can be read
+// at offset 0 (checked at start-up on a real Once, no layout assumed blindly).
+var onceDoneReadable = func() bool {
+	var o sync.Once
+	if onceDone(&o) {
+		return false
+	}
+	o.Do(func() {})
+	return onceDone(&o)
+}()
+
+//go:nocheckptr
+func onceDone(o *sync.Once) bool {
+	return atomic.LoadUint32((*uint32)(unsafe.Pointer(o))) == 1
+}
+
+type onceState struct{ running bool }
+
+// OnceDo is the simulated form of o.Do(f) in instrumented code. The function
+// runs with yield points enabled (sync.Once would block other callers on a
+// mutex, which is not durable in a synctest bubble, so parking inside Do is
+// normally impossible); concurrent callers wait at yield points instead, and
+// lock-free readers of whatever f initialises can be interleaved with it.
+func OnceDo(o *sync.Once, f func(), site string) {
+	r := cur.Load()
+	if RaceMode || r == nil || r.sched == nil || r.sched.fast.Load() || !onceDoneReadable {
+		if r != nil && r.sched != nil && !r.sched.fast.Load() {
+			LockEnter()
+			defer LockExit()
+		}
+		o.Do(f)
+		return
+	}
+	s := r.sched
+	t := s.current(site)
+	for {
+		s.park(t, site)
+		if s.fast.Load() {
+			o.Do(f)
+			return
+		}
+		if onceDone(o) {
+			return
+		}
+		s.mu.Lock()
+		st := s.onces[o]
+		if st == nil {
+			st = &onceState{}
+			s.onces[o] = st
+		}
+		if !st.running {
+			st.running = true
+			s.mu.Unlock()
+			break
+		}
+		t.spin = true // another task is inside f
+		s.mu.Unlock()
+	}
+	defer func() {
+		o.Do(func() {}) // mark the real Once done (also when f panicked, as sync.Once does)
+		s.mu.Lock()
+		delete(s.onces, o)
+		s.mu.Unlock()
+		MutexUnlocked()
+	}()
+	f()
+}
